@@ -65,28 +65,61 @@ def log(*a):
 # ----------------------------------------------------------------------------
 # Coq side
 # ----------------------------------------------------------------------------
-def ensure_built():
-    """Full .vo build (no -vos/-vok).  No-op when up to date."""
-    mk = COQ / "Makefile"
+def gen_coqproject():
+    """_CoqProject lists every .v under theories/ proofs/ properties/ (regenerated, atomic)."""
+    lines = ["-Q theories FV", "-Q proofs FVP", "-Q properties FVProps"]
+    for d in ("theories", "proofs", "properties"):
+        lines += sorted(f"{d}/{p.name}" for p in (COQ / d).glob("*.v") if not p.name.endswith("_audit.v"))
+    txt = "\n".join(lines) + "\n"
     proj = COQ / "_CoqProject"
-    if not mk.exists() or mk.stat().st_mtime < proj.stat().st_mtime:
-        subprocess.run(
-            ["coq_makefile", "-f", "_CoqProject", "-o", "Makefile"],
-            cwd=COQ, check=True, stdout=subprocess.DEVNULL, stderr=subprocess.DEVNULL,
-        )
+    if not proj.exists() or proj.read_text() != txt:
+        tmp = COQ / f"._CoqProject.{os.getpid()}"
+        tmp.write_text(txt)
+        os.replace(tmp, proj)
+    return txt
+
+
+def ensure_built(pid=None):
+    """Full .vo build (no -vos/-vok) of properties/<pid>.v and everything it depends on
+    (everything when pid is None).  No-op when up to date.  One Makefile per property so that
+    concurrent checks do not share a dependency file."""
+    gen_coqproject()
+    mkname = f"Makefile.{pid}" if pid else "Makefile"
+    subprocess.run(
+        ["coq_makefile", "-f", "_CoqProject", "-o", mkname],
+        cwd=COQ, check=True, stdout=subprocess.DEVNULL, stderr=subprocess.DEVNULL,
+    )
+    target = [f"properties/{pid}.vo"] if pid else []
     r = subprocess.run(
-        ["timeout", "3000", "make", "-j", str(NPROC)],
+        ["timeout", "3000", "make", "-f", mkname, "-j", str(NPROC), *target],
         cwd=COQ, stdout=subprocess.PIPE, stderr=subprocess.STDOUT, text=True,
     )
     return r.returncode == 0, r.stdout
 
 
-def grep_gate():
-    """Reject declared axioms / admitted proofs / disabled checks anywhere in the development."""
-    bad = []
-    for p in sorted(COQ.rglob("*.v")):
-        if CASES in p.parents:
+def dep_closure(pid):
+    """Source files properties/<pid>.v depends on (through From FV/FVP/FVProps Require ...)."""
+    dirs = {"FV": "theories", "FVP": "proofs", "FVProps": "properties"}
+    todo = [COQ / "properties" / f"{pid}.v"]
+    seen = []
+    while todo:
+        f = todo.pop()
+        if f in seen or not f.exists():
             continue
+        seen.append(f)
+        txt = re.sub(r"\(\*.*?\*\)", "", f.read_text(), flags=re.S)
+        for m in re.finditer(r"From\s+(FV|FVP|FVProps)\s+Require\s+(?:Import|Export)?\s*([^.]*)\.", txt):
+            for name in m.group(2).split():
+                todo.append(COQ / dirs[m.group(1)] / f"{name}.v")
+    return seen
+
+
+def grep_gate(pid=None):
+    """Reject declared axioms / admitted proofs / disabled checks in every file the property depends on
+    (the whole development when pid is None)."""
+    bad = []
+    files = sorted(dep_closure(pid)) if pid else sorted(p for p in COQ.rglob("*.v") if CASES not in p.parents)
+    for p in files:
         depth = 0
         txt = re.sub(r"\(\*.*?\*\)", "", p.read_text(), flags=re.S)
         for ln, line in enumerate(txt.splitlines(), 1):
@@ -292,8 +325,8 @@ def check_property(mod, tier, seed, replay=None):
     known_lines = []
     notes = []
 
-    ok_build, build_out = ensure_built()
-    bad = grep_gate()
+    ok_build, build_out = ensure_built(pid)
+    bad = grep_gate(pid)
     theorems, assumptions, ok_audit, audit_out = audit_property_file(pid) if ok_build else ([], {}, False, build_out)
     allowed_axioms = set(getattr(mod, "ALLOWED_AXIOMS", []))
     discharged = 0
